@@ -63,6 +63,9 @@ package header
 //@ ghost var storeTailH uint64 -- height of the store's tail (only moved under Syncer.tailMu)
 
 //@ function chainAt(h uint64) H -- the header of the canonical chain at height h (A-chain)
+//@ axiom chain-heights: forall a uint64 @ chainAt(a) :: chainAt(a).Height() == a
+//@ axiom chain-hashes-injective: forall a uint64, b uint64 @ chainAt(a), chainAt(b) :: chainAt(a).Hash() == chainAt(b).Hash() ==> a == b
+//@ pure onChain(x) = !x.IsZero() && sameHdr(x, chainAt(x.Height()))
 
 //@ iface Store.Height(s)
 //@   modifies ghost:storeLow
